@@ -94,13 +94,13 @@ func c12Judge(cs *core.Case, env *Env, in, out string, lc core.LocalCounts) bool
 }
 
 func runC12(ctx *core.Ctx) {
-	ctx.Rule = "sandbox subsets (256 incl. empty and full in quick, all 2^14 in thorough) and crossorigin policies (rule scopes, with/without URL options) x the five media elements and iframe x supplied crossorigin/sandbox values (absent, empty, valid, unknown, duplicated, upper case, mixed whitespace, repeated attributes) with and without other attributes; oracle on every output start tag with >= 1 attribute; non-trivial = a media/iframe tag with attributes was judged, distinct by (policy, input)"
+	ctx.Rule = "sandbox subsets (1024 incl. empty and full in quick, all 2^14 in thorough) and crossorigin policies (rule scopes, with/without URL options) x the five media elements and iframe x supplied crossorigin/sandbox values (absent, empty, valid, unknown, duplicated, upper case, mixed whitespace, repeated attributes) with and without other attributes; oracle on every output start tag with >= 1 attribute; non-trivial = a media/iframe tag with attributes was judged, distinct by (policy, input)"
 	ctx.Assume("sandbox tokens are split on ASCII whitespace and compared ASCII-case-insensitively", "script is unreachable without AllowUnsafe")
-	nSub := ctx.N(256, 1<<14)
+	nSub := ctx.N(1024, 1<<14)
 	if !ctx.Quick() {
 		ctx.Extra("all_sandbox_subsets_enumerated", true)
 	}
-	perPol := ctx.N(60, 40)
+	perPol := ctx.N(80, 60)
 	ctx.Run("subsets", nSub, func(cs *core.Case) {
 		r := cs.R
 		mask := cs.Index
